@@ -19,8 +19,8 @@ import (
 const earthR = 6371e3
 const piR = math.Pi * earthR
 
-func fb(f float64) int64   { return int64(math.Float64bits(f)) }
-func bf(b int64) float64   { return math.Float64frombits(uint64(b)) }
+func fb(f float64) int64     { return int64(math.Float64bits(f)) }
+func bf(b int64) float64     { return math.Float64frombits(uint64(b)) }
 func tolD(d float64) float64 { return math.Max(1e-3, 1e-6*math.Abs(d)) }
 func tolR(r float64) float64 { return math.Max(1e-3, 1e-8*math.Abs(r)) }
 
@@ -315,6 +315,19 @@ func streamC15(w *W, rng *rand.Rand, tier string) {
 		n = 1000000
 	}
 	g := &geoGen{rng}
+	// corpus of earlier failures (runs first): antipodal pairs whose haversine rounds above 1 (NaN
+	// before fix a5ec9f5) and trips of just under half the circumference
+	corpus := [][6]float64{
+		{43.97036209762885, -129.24243174827706, -43.97036209762885, 50.757568251722944, 749381.9890835233, 34.44872541360733},
+		{-47.765139114253074, 30.83565006149348, 47.765139114253074, -149.16434993850652, 637807.2525800511, 17.808359725275192},
+		{-42.45726218791798, 179.99999999978883, 42.45726218791798, -2.1117330106790178e-10, 10007543.398010286, 115.69840376270179},
+		{59.00610327455669, -43.340538574028955, 17.555921931951403, 0, 20015086.789148405, 164.2805663174511},
+		{-56.51186656433689, -102.46935956236335, 0, 179.99999999908485, 20015086.777719684, 290.607321705069},
+		{56.54214834942121, 0, -56.54214834942121, 180, 20015086.79258344, 270},
+		{-59.22679209876974, 180, 0, -179.97374997412774, 20015086.777351595, 151.17012523011846},
+		{-57.82694218722144, 180, 89.99999999997578, 5.107544973032219, 20015086.791361973, 7.702785374925645},
+		{42.382420070131644, -73.44793678558557, -90, 104.85454945878428, 20015086.792518962, 7.188052952603912},
+	}
 	for it := 0; it < n; it++ {
 		latA, lonA, latB, lonB := g.lat(), g.lon(), g.lat(), g.lon()
 		switch rng.Intn(8) {
@@ -333,6 +346,13 @@ func streamC15(w *W, rng *rand.Rand, tier string) {
 		if d >= piR {
 			d = piR * 0.999999
 		}
+		if rng.Intn(50) == 0 { // millimetres short of half the circumference
+			d = piR - 0.03*rng.Float64()
+		}
+		if it < len(corpus) {
+			c := corpus[it]
+			latA, lonA, latB, lonB, d, th = c[0], c[1], c[2], c[3], c[4], c[5]
+		}
 		x := rng.Float64()*360 - 180
 		la, lo := geo.DestinationPoint(latA, lonA, d, th)
 		args := []int64{fb(latA), fb(lonA), fb(latB), fb(lonB), fb(d), fb(th), fb(x),
@@ -349,6 +369,17 @@ func streamC15(w *W, rng *rand.Rand, tier string) {
 	}
 }
 
+// corpus of earlier failures (runs first): metre-scale radii whose longitude width lost 1% (before fix
+// 7efb257), and quarter-circumference radii on the equator (where an asin form loses the width instead)
+var c14corpus = [][3]float64{
+	{-13.125630165333263, 141.912597632381, 1.0064278155695563},
+	{-24.909418854497815, -131.52856619959792, 1.080106503380984},
+	{-89.8294757172267, -140.9166036385549, 1.0330013680138395},
+	{0, 33.66193991823047, 10007543.327367872},
+	{0, -39.343403901080734, 10007543.275911517},
+	{0, 86.60374778051141, 10007543.276599066},
+}
+
 func streamC14(w *W, rng *rand.Rand, tier string) {
 	n := 30000
 	if tier == "thorough" {
@@ -363,8 +394,14 @@ func streamC14(w *W, rng *rand.Rand, tier string) {
 		case 1: // antimeridian-grazing at this latitude
 			m = (180 - math.Abs(lon)) * math.Pi / 180 * earthR * math.Cos(lat*math.Pi/180) * (1 + (rng.Float64()-0.5)*1e-3)
 		}
+		if rng.Intn(12) == 0 { // metre-scale radii: cos(r) is within a few hundred ulps of 1
+			m = 1 + 4*rng.Float64()*rng.Float64()
+		}
 		if m < 0 || math.IsNaN(m) {
 			m = 0
+		}
+		if it < len(c14corpus) {
+			lat, lon, m = c14corpus[it][0], c14corpus[it][1], c14corpus[it][2]
 		}
 		a, b, c, d := geo.RectFromCenter(lat, lon, m)
 		w.Do(81, []int64{fb(lat), fb(lon), fb(m), fb(a), fb(b), fb(c), fb(d), rng.Int63()}, true)
